@@ -34,6 +34,7 @@ type loP struct {
 	Lex       string // purely lexical serialisation variant (lexVals)
 	Wire      string // legal wire-level variant: "" | b64-76 | b64-64crlf | ctype-charset (POST) | flate-stored | flate-flushed | flate-chunks (Redirect)
 	HTTP      string // HTTP-level shape (world.HTTPShapes)
+	Sibling   string // another provider instance alive in the same process (world.SiblingKinds)
 	Lookup    string // GetEntityByID fault: "" | error | error-ctx-deadline | error-ctx-canceled
 }
 
@@ -74,7 +75,7 @@ func loBuild(p loP) (*world.World, *http.Request, *loTruth) {
 	if p.IssuerCfg == "host" {
 		cfg.IssuerMode = "host"
 	}
-	w, err := world.New(cfg)
+	w, err := world.WithSibling(p.Sibling, func() (*world.World, error) { return world.New(cfg) })
 	if err != nil {
 		panic(err)
 	}
@@ -302,6 +303,8 @@ func (p *loP) set(name, val string) {
 		p.Wire = val
 	case "HTTP":
 		p.HTTP = val
+	case "Sibling":
+		p.Sibling = val
 	case "Lookup":
 		p.Lookup = val
 	default:
